@@ -407,6 +407,12 @@ func (e *Engine) vrtIntrinsic(fn *ssa.Function, vn string, args []Value, st *Sta
 		return sEach(t, func(c *Term) *Term {
 			return Or(byteRange(c, 'a', 'z'), byteRange(c, 'A', 'Z'), byteRange(c, '0', '9'), Eq(c, BVC(8, '_')), Eq(c, BVC(8, '/')), Eq(c, BVC(8, '-')))
 		}), true
+	case "DotPath":
+		// like Path, dots allowed (gopkg.in/yaml.v2, example.com/api.v2)
+		t := args[0].(*Term)
+		return sEach(t, func(c *Term) *Term {
+			return Or(byteRange(c, 'a', 'z'), byteRange(c, 'A', 'Z'), byteRange(c, '0', '9'), Eq(c, BVC(8, '_')), Eq(c, BVC(8, '/')), Eq(c, BVC(8, '-')), Eq(c, BVC(8, '.')))
+		}), true
 	case "Emitted":
 		return StrC("@emitted"), true
 	case "Count":
